@@ -860,6 +860,7 @@ def rule_N7(ctx, rule: str = "N7") -> None:
     paths = Interp(mod, fork_ifexp=True, fork_while=True).run(lv)
     ctx.count(len(paths))
     missing = None
+    recomputed = None
     n_ret = 0
     for p in paths:
         if p.outcome != "return" or p.value is None or p.value[0] != "tuple" or len(p.value[1]) != 2:
@@ -877,6 +878,9 @@ def rule_N7(ctx, rule: str = "N7") -> None:
             return out
 
         sv, sr = sources(val), sources(raw)
+        arith = sorted({x[1] for x in walk(raw) if x[0] == "op" and x[1] in ("&", "|", "<<", ">>", "%", "//", "*", "-")})
+        if arith and recomputed is None:
+            recomputed = (show(raw), arith, next((dotted(x[1]) for x in walk(raw) if x[0] == "call" and any(y[0] == "op" and y[1] in arith for a in x[2] for y in walk(a))), None))
         # a truthiness decision on `first` that sends its byte into the value counts as a use of first
         if first and any(k == N(first) and v for k, v in p.valuation.items()) and any(x[0] == "sub" and x[1] == N(first) for x in walk(val)):
             sv.add("first")
@@ -907,6 +911,17 @@ def rule_N7(ctx, rule: str = "N7") -> None:
             ctx.proved(rule, "load_varint:first-byte-consumed", mod.loc(lv), "the supplied byte is part of every returned value (`first or read`)")
         else:
             ctx.inconclusive(rule, "load_varint:first-byte-consumed", "no returning path decides whether a first byte was supplied", mod.loc(lv))
+    # (f) raw is the bytes that were read, not something computed from the decoded number: several byte strings decode to the
+    # same value (over-long forms such as 80 00 for 0) and the raw form is what unknown fields are re-emitted from
+    if n_ret:
+        if recomputed:
+            ctx.refuted(rule, "load_varint:raw-is-the-bytes-read", f"arithmetic {recomputed[1]}", mod.loc(lv),
+                        f"the raw bytes returned are {recomputed[0][:100]}: they are computed from the decoded number (operators {recomputed[1]}"
+                        + (f" inside {recomputed[2]}(...)" if recomputed[2] else "") + ") instead of being the bytes consumed; a varint in a non-minimal form (b'\\x80\\x00' is 0, "
+                        "a ten-byte negative int32) is returned - and an unknown field re-emitted - as different bytes than were on the wire", "load_varint(BytesIO(b'\\x81\\x00'))")
+        else:
+            ctx.proved(rule, "load_varint:raw-is-the-bytes-read", mod.loc(lv), f"{n_ret} returning paths; raw is built from the read results"
+                       + (f" and `{first}`" if first else "") + " by concatenation only")
     if not n_ret:
         ctx.inconclusive(rule, "load_varint:raw-covers-value", "no path returning (value, raw)", mod.loc(lv))
     elif missing:
